@@ -2,6 +2,7 @@
    implementation's observed output. *)
 From Coq Require Import List NArith Bool.
 From SNT Require Import Base.Outcome Base.Report Encoder.Base64.
+From SNT Require Export Encoder.Base64Prog.
 Import ListNotations.
 Local Open Scope N_scope.
 
@@ -46,12 +47,80 @@ Definition whole_groups (text : list N) : list N :=
 Inductive c14_case :=
 | Enc (chunks : list (list N)) (impl : res)
     (* Base64Encoder: one write_all per chunk, then finish() *)
-| Dec (orig : option (list N)) (text : list N) (sched : list N) (dests : list N) (impl : res).
+| Dec (orig : option (list N)) (text : list N) (sched : list N) (dests : list N) (impl : res)
     (* Base64Decoder over a reader that returns sched[k] bytes on its k-th call,
        drained with destination buffers of sizes dests (cyclic); orig = Some x
        when text was produced as the reference RFC 4648 encoding of x *)
+| DecProg (orig : option (list N)) (text : list N) (sched : list N) (ops : list dop)
+          (impl : option (list dres))
+    (* ONE decoder consumed by a program of std::io::Read operations (read, read_exact,
+       read_to_end / read_to_string, read_vectored, bytes(), take(n), BufReader wrappers, by_ref);
+       impl = what each operation returned, stopping at the first error (None = panic) *)
+| EncProg (ops : list eop) (finish : bool) (rets : list eres) (out : option (list N)).
+    (* ONE encoder fed by a program of std::io::Write operations (write, write_all,
+       write_vectored, write_fmt, flush), then finish() or dropped without finish;
+       rets = bytes accepted per write / text in the inner writer at each flush; out = final text
+       (None = panic or io error) *)
 
 Definition nats (l : list N) : list nat := map N.to_nat l.
+
+Definition dres_eqb (a b : dres) : bool :=
+  match a, b with
+  | Got x, Got y => nlist_eqb x y
+  | Failed, Failed | EofErr, EofErr | Bad, Bad => true
+  | _, _ => false
+  end.
+
+Definition eres_eqb (a b : eres) : bool :=
+  match a, b with
+  | Wrote x, Wrote y => Nat.eqb x y
+  | Flushed x, Flushed y => nlist_eqb x y
+  | _, _ => false
+  end.
+
+Definition is_failed (r : dres) : bool := match r with Failed => true | _ => false end.
+Definition has_drain (ops : list dop) : bool :=
+  existsb (fun o => match o with OToEnd => true | _ => false end) ops.
+Definition sum (l : list nat) : nat := fold_left Nat.add l O.
+
+(* the results of a program on VALID text, judged from the decoded bytes x alone:
+   every operation hands out the next bytes of x, as many as its contract says *)
+Fixpoint walk (ops : list dop) (rs : list dres) (rest : list N) : bool :=
+  match ops, rs with
+  | [], [] => match rest with [] => true | _ => false end      (* programs end with a drain *)
+  | op :: ops', r :: rs' =>
+      match op, r with
+      | ORead n, Got b =>
+          is_prefix b rest && Nat.leb (length b) n
+          && (negb (Nat.eqb (length b) 0) || Nat.eqb n 0 || Nat.eqb (length rest) 0)
+          && walk ops' rs' (skipn (length b) rest)
+      | OVectored ns, Got b =>
+          is_prefix b rest && Nat.leb (length b) (sum ns)
+          && (negb (Nat.eqb (length b) 0) || Nat.eqb (sum ns) 0 || Nat.eqb (length rest) 0)
+          && walk ops' rs' (skipn (length b) rest)
+      | OExact n, Got b => nlist_eqb b (firstn n rest) && Nat.eqb (length b) n && walk ops' rs' (skipn n rest)
+      | OExact n, EofErr => Nat.ltb (length rest) n && match rs' with [] => true | _ => false end
+      | OToEnd, Got b => nlist_eqb b rest && walk ops' rs' []
+      | OBytes k, Got b => nlist_eqb b (firstn k rest) && walk ops' rs' (skipn k rest)
+      | OTake n, Got b => nlist_eqb b (firstn n rest) && walk ops' rs' (skipn n rest)
+      | _, _ => false
+      end
+  | _, _ => false
+  end.
+
+(* complete 3-byte groups only: what the encoder has emitted before finish() *)
+Definition rfc_whole (l : list N) : list N := rfc4648 (firstn (Nat.mul 3 (Nat.div (length l) 3)) l).
+
+(* accepted bytes per operation from the OBSERVED return values *)
+Fixpoint enc_walk (ops : list eop) (rets : list eres) (acc : list N) : option (list N) :=
+  match ops, rets with
+  | [], [] => Some acc
+  | EWrite _ bufs :: ops', Wrote n :: rets' =>
+      if Nat.leb n (length (concat bufs)) then enc_walk ops' rets' (acc ++ firstn n (concat bufs)) else None
+  | EFlush :: ops', Flushed snk :: rets' =>
+      if nlist_eqb snk (rfc_whole acc) then enc_walk ops' rets' acc else None
+  | _, _ => None
+  end.
 
 Definition c14_check (c : c14_case) : bool * bool :=
   match c with
@@ -68,6 +137,29 @@ Definition c14_check (c : c14_case) : bool * bool :=
           | Some x => nlist_eqb text (rfc4648 x) && res_eqb impl (ROk x)
           | None => true
           end)
+  | DecProg orig text sched ops impl =>
+      match impl with
+      | None => (false, false)
+      | Some rs =>
+          (list_eqb dres_eqb (decode_prog text (nats sched) ops) rs,
+           (* what was handed out is a prefix of the decoding of the complete groups *)
+           is_prefix (gotten rs) (whole_groups text)
+           && negb (existsb (fun r => match r with Bad => true | _ => false end) rs)
+           (* text that is not a multiple of four long: a draining program meets the error *)
+           && (if Nat.eqb (Nat.modulo (length text) 4) 0 then true
+               else negb (has_drain ops) || existsb is_failed rs)
+           && match orig with
+              | Some x => nlist_eqb text (rfc4648 x) && has_drain ops && walk ops rs x
+              | None => true
+              end)
+      end
+  | EncProg ops finish rets out =>
+      let m := encode_prog ops finish in
+      (list_eqb eres_eqb (fst m) rets && match out with Some o => nlist_eqb (snd m) o | None => false end,
+       match out, enc_walk ops rets [] with
+       | Some o, Some acc => nlist_eqb o (if finish then rfc4648 acc else rfc_whole acc)
+       | _, _ => false
+       end)
   end.
 
 Definition c14_report := report c14_check.
